@@ -5,7 +5,7 @@ from lib import mir as M
 from lib.facts import CheckerError
 
 NEED = ("dev",)
-NEED_THOROUGH = ()
+NEED_THOROUGH = ("stack",)
 
 CORE = "blots_core::"
 EVAL = CORE + "expressions::evaluate_ast"
@@ -230,3 +230,81 @@ def closure_depth(fn, op, f, cg, carriers, crates):
                 continue
         return ("other", rv["k"])
     return ("other", "unresolved")
+
+
+# ---------------------------------------------------------------- thorough: machine-frame stack budget (Engine D)
+def run_thorough(ctx):
+    import heapq, json, os
+    from lib import facts as F
+    st = json.load(open(os.path.join(ctx.fdir, "stack.json")))
+    sizes, edges = st["sizes"], st["edges"]
+    ctx.units["machine_functions_with_frame_sizes"] = len(sizes)
+    ctx.trusted = ["LLVM .stack_sizes section of the nightly release object (fixed frame sizes)", "relocation-resolved direct call edges from llvm-objdump", "rustc nightly 1.97 front end"]
+    ctx.assumptions = ["frames are those of the nightly release build (the shipped binary is built with the pinned 1.89; frames differ by a few percent)",
+                       "only fixed frames on the cheapest direct recursion cycle are summed: a lower bound on real stack use, so a failed obligation is a definite overflow and a passed one is 'the direct cycle fits'",
+                       "main-thread stack of 8 MiB unless the CLI sets an explicit thread stack size (R3s)"]
+
+    def find(suffix):
+        c = [k for k in sizes if k == suffix or k.endswith(suffix)]
+        c = [k for k in c if "{closure" not in k and "::<" not in k.replace(suffix, "")]
+        if len(c) != 1:
+            raise F.CheckerError("stack facts: cannot identify %s among machine functions (%d candidates)" % (suffix, len(c)))
+        return c[0]
+
+    EA = find("blots_core::expressions::evaluate_ast")
+    FC = find("<blots_core::functions::FunctionDef>::call")
+    w = lambda f: sizes.get(f, 0) + 8  # frame + return address
+
+    def dist(src, dst, avoid=()):
+        """cheapest sum of frames on a call path src -> dst, counting src and every intermediate node, not dst"""
+        pq = [(w(src), src)]
+        best = {src: w(src)}
+        while pq:
+            c, x = heapq.heappop(pq)
+            if c > best.get(x, 1e18):
+                continue
+            for y in edges.get(x, ()):
+                if y == dst:
+                    return c, x
+                if y in avoid or y not in sizes:
+                    continue
+                nc = c + w(y)
+                if nc < best.get(y, 1e18):
+                    best[y] = nc
+                    heapq.heappush(pq, (nc, y))
+        return None, None
+
+    BO = find("blots_core::expressions::evaluate_binary_op_ast")
+    a, _ = dist(EA, FC)
+    b, _ = dist(FC, EA)
+    s1, via = dist(EA, EA, avoid=(FC,))
+    ab, _ = dist(EA, BO, avoid=(FC,))
+    bb, _ = dist(BO, EA, avoid=(FC,))
+    ctx.rule("C18.R3", "stack budget from machine frames: (limit+1) x (S0 + d x S1) fits the evaluator's stack for bodies of nesting d, and 300 x (S0 + d x S1) likewise; S0 = frames retained on the cheapest call cycle through FunctionDef::call, S1 = frames retained per nesting level (generic: cheapest evaluate_ast cycle without a Blots call; binary: the cycle through evaluate_binary_op_ast); tail calls release their frame and are not cycle edges", floor=20)
+    if a is None or b is None or s1 is None or ab is None or bb is None:
+        ctx.inst("C18.R3", "cycles", False, "recursion cycles not found in the machine call graph (S0: %s+%s, S1: %s, binary: %s+%s)" % (a, b, s1, ab, bb), None)
+        return
+    S0, S1, S1B = a + b, s1, ab + bb
+    ctx.units["S0_bytes_per_blots_call"] = S0
+    ctx.units["S1_bytes_per_generic_nesting_level"] = S1
+    ctx.units["S1_bytes_per_binary_operator_level"] = S1B
+    limit = ctx.units.get("depth_limit", 1000)
+    stack = ctx.units.get("evaluator_stack_bytes", 8 * 1024 * 1024)
+    ctx.inst("C18.R3", "cycles", True, "S0 = %d B per Blots call, S1 = %d B per generic nesting level (via %s), %d B per binary-operator level; frames: evaluate_ast %d, evaluate_binary_op_ast %d, FunctionDef::call %d" % (S0, S1, via.split("::")[-1], S1B, sizes[EA], sizes[BO], sizes[FC]), None)
+    # The frames are nightly's; the shipped binary is built by the pinned toolchain. Verdicts are given only outside a +-25 % band.
+    TOL = 0.25
+
+    def verdict(need):
+        if need > stack * (1 + TOL):
+            return False
+        if need < stack * (1 - TOL):
+            return True
+        return None
+
+    for kind, per in (("generic", S1), ("binary", S1B)):
+        for d in (0, 1, 2, 3, 4, 8, 16, 32):
+            need = (limit + 1) * (S0 + d * per)
+            ctx.inst("C18.R3", "runaway#%s:d=%d" % (kind, d), verdict(need), "runaway recursion with %d nested %s level(s) per body retains at least %d x (%d + %d x %d) = %.1f MiB before the depth error can fire; stack %.1f MiB%s" % (
+                d, "operator" if kind == "binary" else "expression", limit + 1, S0, d, per, need / 2**20, stack / 2**20, "" if verdict(need) is not None else " (inside the +-25 %% toolchain band: not decided)"), None)
+            need3 = 300 * (S0 + d * per)
+            ctx.inst("C18.R3", "depth300#%s:d=%d" % (kind, d), verdict(need3), "300 nested calls with %d nested %s level(s) per body retain at least %.1f MiB; stack %.1f MiB" % (d, "operator" if kind == "binary" else "expression", need3 / 2**20, stack / 2**20), None)
